@@ -155,7 +155,7 @@ class Engine:
     def __init__(self, repo: Repo, key: str, builtins_mod):
         self.repo = repo
         self.key = key
-        self.fi = repo.funcs[key]
+        self.fi = repo.funcs[key.split('#')[0]]
         self.contract: Contract = REGISTRY[key]
         self.B = builtins_mod
         from . import tensors as _T, distmodel as _D
@@ -342,6 +342,9 @@ class Engine:
         k = val.kind
         if isinstance(k, KRef) and st.nxt is not None:
             self.fact(st, z3.And(val.term >= 0, val.term < st.nxt))
+            if k.cls is not None and k.cls in ('Tensor', 'Future', 'WorkFuture'):
+                # the static class of a declared field / parameter is a sort hint: dynamic class conforms
+                self.fact(st, z3.Or(val.term == 0, self.isinstance_term(st, val, k.cls)))
         elif isinstance(k, KDict):
             ops = DictOps(k)
             d = val.term
@@ -559,7 +562,7 @@ class Engine:
             if m.startswith('*.'):
                 anyobj.add(m[2:])
                 continue
-            if m.startswith('global:') or m == 'fresh':
+            if m.startswith('global:') or m == 'fresh' or m.startswith('ghost:'):
                 continue
             node = ast.parse(m, mode='eval').body
             if not isinstance(node, ast.Attribute):
@@ -569,7 +572,17 @@ class Engine:
             allowed.setdefault(key, []).append(obj.term)
         a0 = z3.Int('alloc0')
         for key, arr in st.heap.items():
-            if key == '$cls' or key.startswith('$ghost:'):
+            if key == '$cls':
+                continue
+            if key.startswith('$ghost:'):
+                gname = key[len('$ghost:'):]
+                if f'ghost:{gname}' in c.modifies or gname in ('next_sid', 'calls', 'clock', 'barriers'):
+                    continue
+                init = self.old_heap.get(key)
+                if init is None or z3.eq(init, arr):
+                    continue
+                self.oblige(st, z3.Select(arr, 0) == z3.Select(init, 0), f'frame:{key}', kind='frame',
+                            text=f'ghost state {gname} (e.g. the collective trace) is not modified')
                 continue
             if key.startswith('$global:'):
                 gname = key.rsplit('.', 1)[1]
@@ -1244,6 +1257,13 @@ class Engine:
                 return Closure(self.repo.funcs[k2].node, {}, m, n, fi=self.repo.funcs[k2]).value()
             if n in self.repo.classes:
                 return meta_value(ClassRef(n))
+            if n in self.repo.module_globals.get(m, {}):
+                # module-level constant of another repository module (e.g. kfac.distributed.Future)
+                self.frames.append(Frame(fi=None, module=m, self_cls=None))
+                try:
+                    return self.eval(self.repo.module_globals[m][n], st)
+                finally:
+                    self.frames.pop()
             b = self.B.lookup(imp)
             if b is not None:
                 return b
@@ -1316,6 +1336,10 @@ class Engine:
         b = self.B.lookup_method(self, st, base, attr)
         if b is not None:
             return b
+        if base.kind == KDyn:
+            # attribute of a dynamically typed value: unknown (uninterpreted function of the object)
+            f = self.uf_cache.setdefault('dynattr_' + attr, z3.Function('dynattr_' + attr, DynS, DynS))
+            return DynV(f(base.term))
         raise Unsupported(f'attribute {attr} of {base.kind!r}')
 
     def expr_BoolOp(self, e, st):
@@ -1637,8 +1661,15 @@ class Engine:
         r = self.B.binop(self, st, op, a, b)
         if r is not None:
             return r
-        if self.T.is_tensor(a) or self.T.is_tensor(b):
-            return self.T.tensor_binop(self, st, op, a, b)
+        if self.T.is_tensor(a) or self.T.is_tensor(b) or any(
+                isinstance(x.kind, KRef) and x.kind.cls is None for x in (a, b)):
+            ops = []
+            for x in (a, b):
+                if isinstance(x.kind, KRef) and x.kind.cls is None:
+                    self.require(st, self.isinstance_term(st, x, 'Tensor'), 'TypeError', 'tensor operand expected')
+                    x = V(KRef('Tensor'), x.term)
+                ops.append(x)
+            return self.T.tensor_binop(self, st, op, ops[0], ops[1])
         if isinstance(a.kind, KList) and isinstance(b.kind, KList) and op == 'Add':
             if a.meta == 'empty':
                 a = coerce(a, b.kind)
@@ -1998,6 +2029,19 @@ class Engine:
 
     def call_value(self, fn: V, args, kwargs, st, node=None) -> V:
         m = fn.meta
+        if isinstance(m, Vm.FnChoice):
+            c = z3.simplify(m.cond)
+            a, b = st.copy(), st.copy()
+            a.add(c)
+            b.add(z3.Not(c))
+            ra = self.call_value(m.a, args, kwargs, a, node) if not a.dead else NONE
+            rb = self.call_value(m.b, args, kwargs, b, node) if not b.dead else NONE
+            st.assign_from(self.merge_states(c, a, b))
+            if a.dead:
+                return rb
+            if b.dead:
+                return ra
+            return self.merge_vals(c, ra, rb)
         if isinstance(m, Builtin):
             return m.fn(self, st, args, kwargs)
         if isinstance(m, Closure):
@@ -2197,6 +2241,13 @@ class Engine:
             self.frames.pop()
             self._callee_env, self.let_nodes = saved
 
+    GHOST_KINDS = {'next_sid': KInt, 'calls': KInt, 'clock': KInt, 'barriers': KInt}
+
+    def ghost_kind(self, name):
+        if name == 'trace':
+            return self.D.KTrace
+        return self.GHOST_KINDS[name]
+
     def havoc_modifies(self, c: Contract, st: State, pre: State):
         if c.modifies == ['*']:
             for key in list(st.heap):
@@ -2213,6 +2264,14 @@ class Engine:
                 continue
             if m == 'fresh':
                 continue
+            if m.startswith('ghost:'):
+                kind = self.ghost_kind(m[6:])
+                key = '$ghost:' + m[6:]
+                self.heap_array(st, key, kind)
+                st.heap[key] = z3.Const(fresh_name('H:' + key), st.heap[key].sort())
+                continue
+            if m.startswith('global:'):
+                raise Unsupported('callee modifies a module global')
             node = ast.parse(m, mode='eval').body
             obj = self.eval_spec(node.value, pre, pre)
             key, kind = self.field_decl(obj.kind.cls if isinstance(obj.kind, KRef) else None, node.attr)
